@@ -168,6 +168,12 @@ def run_case(case, ctx):
                      "site_events_seen": len(events)}
                 )
 
+        # ------------------------------------------------- top-level keyword arguments
+        if ai == 0 and not prog.get("bare") and len(args) >= 1 and (idx % 3) == 2:
+            r = ctx.call(_check_toplevel_kwargs, ctx, gf, prog, vals, args, rng, d0)
+            if hasattr(r, "brief"):
+                ctx.violation(gfi.raise_key("toplevel-kwargs", r), {**d0, **r.brief()})
+
         # ------------------------------------------------- vmap over keys (no probes)
         if not has_probe and ai == 0 and (idx % 2) == 0:
             keys = jax.random.split(jax.random.key(int(rng.integers(2**31))), 4)
@@ -182,6 +188,38 @@ def run_case(case, ctx):
         r = ctx.call(_check_law, ctx, sim_jit, prog, g, base)
         if hasattr(r, "brief"):
             ctx.violation(gfi.raise_key("simulate-law", r), {**base, **r.brief()})
+
+
+def _check_toplevel_kwargs(ctx, gf, prog, vals, args, rng, d0):
+    """The last parameter passed by keyword at the top level: same density, same
+    trace law, and get_args records (positional, {name: value})."""
+    import jax
+    from genjax import seed
+
+    from lib import gfi, probes
+    from lib import refmodel as R
+
+    name = prog["params"][-1]
+    pos, kw = args[:-1], {name: args[-1]}
+    ref = R.run(prog, vals, chooser=R.prior_chooser(rng))
+    ctx.count("toplevel_kwargs_checks")
+    if ref.min_margin >= 1e-4 and math.isfinite(ref.total):
+        logp, rv = gf.assess(R.to_jax(ref.choices), *pos, **kw)
+        if not (abs(float(logp) - ref.total) <= R.tol(ref.abs_sum(), len(ref.sites))) or not R.close(rv, ref.retval, rel=2e-5):
+            ctx.violation("assess|toplevel-kwargs|density-or-retval-differs", {**d0, "keyword": name, "assess": gfi.fnum(logp), "reference": ref.total})
+            return
+    probes.HOST.reset("observe", int(rng.integers(2**31)))
+    tr = seed(gf.simulate)(jax.random.key(int(rng.integers(2**31))), *pos, **kw)
+    status, ref2 = gfi.coherence(ctx, "simulate|toplevel-kwargs", prog, vals, tr, {**d0, "keyword": name})
+    if status != "ok":
+        return
+    ra = tr.get_args()
+    ok = (
+        isinstance(ra, tuple) and len(ra) == 2 and len(ra[0]) == len(pos) and set(ra[1]) == {name}
+        and all(gfi.bit_equal(a, b) for a, b in zip(ra[0], pos)) and gfi.bit_equal(ra[1][name], kw[name])
+    )
+    if not ok:
+        ctx.violation("simulate|toplevel-kwargs|get_args-differs", {**d0, "keyword": name, "get_args": repr(ra)[:300]})
 
 
 def _check_vmap_keys(ctx, vfn, keys, prog, vals, args, d0):
